@@ -552,6 +552,11 @@ def reviewedCreations : List (String × String × String) := [
   -- integer index range of a python int length: int64 whatever the default float dtype
   ("metric/ape_rpe.py", "matching_time_indices", "torch.arange(len(stamps_1), device=stamps_1.device)")]
 
+/-- cached tensor factories / mutable default arguments of the anchored files that were reviewed (round 5, classes 32 / 29).
+`kwargs={}` of `__torch_function__` is the signature torch prescribes; the dict is only read. -/
+def reviewedCaches : List (String × String × String) := []
+def reviewedDefaults : List (String × String × String) := [("lietensor/lietensor.py", "LieTensor.__torch_function__", "kwargs={}")]
+
 def creationOk (c : String × String × String × String) : Bool :=
   c.2.2.2 == "dtype" || c.2.2.2 == "kwargs" || c.2.2.2 == "intlit" || reviewedCreations.contains (c.1, c.2.1, c.2.2.1)
 
